@@ -7,14 +7,13 @@ import (
 )
 
 // Ristretto holds the constants of RFC 9496 section 4.1 derived from first
-// principles (SQRT_M1 = 2^((p-1)/4); INVSQRT_A_MINUS_D is the root for which
-// the base point encodes to the RFC's generator string - see Calibrate).
+// principles: SQRT_M1 = 2^((p-1)/4) (the even root), INVSQRT_A_MINUS_D = the
+// square root of 1/(a-d) whose value is the one printed in the RFC.
 type Ristretto struct {
 	E           *ECurve
 	SqrtM1      El
 	InvSqrtAmD  El
-	calibrated  bool
-	GeneratorEn []byte
+	GeneratorEn []byte // RFC 9496 encoding of the generator
 }
 
 func isNeg(x El) bool { return x.A.Bit(0) == 1 }
@@ -26,8 +25,8 @@ func (r *Ristretto) abs(x El) El {
 	return x
 }
 
-// NewRistretto builds the encoder and calibrates the one sign choice against
-// the generator encoding of RFC 9496 section 4.1 / A.1.
+// NewRistretto builds the encoder (validated in the self-check against the
+// RFC 9496 A.1 multiples of the generator).
 func NewRistretto() *Ristretto {
 	e := Ed25519()
 	f := e.F
@@ -47,10 +46,7 @@ func NewRistretto() *Ristretto {
 	want := []byte{0xe2, 0xf2, 0xae, 0x0a, 0x6a, 0xbc, 0x4e, 0x71, 0xa8, 0x84, 0xa9, 0x61, 0xc5, 0x00, 0x51, 0x5f,
 		0x58, 0xe3, 0x0b, 0x6a, 0xa5, 0x82, 0xdd, 0x8d, 0xb6, 0xa6, 0x59, 0x45, 0xe0, 0x8d, 0x2d, 0x76}
 	r.GeneratorEn = want
-	// The rotate branch is the only user of the constant; the generator does
-	// not necessarily take it, so calibrate on the first few multiples too:
-	// both roots must give a self-consistent answer for B, and the root is
-	// fixed by the RFC's decimal value.
+	// the sign of the root is fixed by the RFC's decimal value
 	rfc := dec("54469307008909316920995813868745141605393597292927456921205312896311721017578")
 	if s.A.Cmp(rfc) != 0 {
 		s = f.Neg(s)
